@@ -51,7 +51,10 @@ def render(seq, k, asm=None, asm_at=0, use=True):
         dim = ''
         if '[' in spec:
             spec, dim = spec[:spec.index('[')].strip(), spec[spec.index('['):]
-        sp = spec + ' ' if spec else ''
+        words = spec.split()
+        if len(words) > 1 and (k + j) % 3 == 1:
+            words.reverse()          # declaration specifiers may be written in any order (6.7p2)
+        sp = ' '.join(words) + ' ' if words else ''
         lab = ' __asm__("%s")' % asm if asm and j == asm_at else ''
         if kind == 'obj':
             d = '%sint %s%s%s%s;' % (sp, x, dim, lab, (' = { %d, 2 }' if dim else ' = %d') % (100 * (k % 1000) + j + 1) if init else '')
@@ -260,6 +263,47 @@ def _unit(args):
     return out
 
 
+FIXED_UNITS = [
+    # several identifiers declared from one set of specifiers or one typeof share a type object inside the compiler: sizing one of them must not size the others
+    ('typedef int vec[]; vec fa, fb; int fa[3]; int fc[]; __typeof__(fc) fd; int fc[5]; int *pfb(void) { return fb; } int *pfd(void) { return fd; }', ['fa', 'fb', 'fc', 'fd']),
+    ('typedef char str[]; str sa, sb = "abc", sc; char sa[7]; extern str sd; str sd = "xy"; char *psc(void) { return sc; }', ['sa', 'sb', 'sc', 'sd']),
+    ('int ga[], gb[]; int ga[2]; static int gc[4], gd[1]; int *u1(void) { return gb; } int *u2(void) { return gc + gd[0]; }', ['ga', 'gb', 'gc', 'gd']),
+    ('extern int ea[]; __typeof__(ea) eb; int ea[6] = { 1 }; __typeof__(ea) ec; int *u3(void) { return eb + ec[0]; }', ['ea', 'eb', 'ec']),
+    # every order of the specifiers of one declaration
+    ('_Thread_local static int ta = 1; _Thread_local extern int tb; static _Thread_local int tc = 2; extern _Thread_local int td; int tget(void) { return ta + tb + tc + td; }', ['ta', 'tb', 'tc', 'td']),
+    ('int static sa1 = 1; int extern sa2; const static int sa3 = 3; volatile int extern sa4; long static unsigned sa5 = 5; int sget(void) { return sa1 + sa2 + sa3 + sa4 + (int)sa5; }', ['sa1', 'sa2', 'sa3', 'sa4', 'sa5']),
+    ('inline static int if1(void) { return 1; } int inline extern if2(void) { return 2; } void _Noreturn static if3(void) { for (;;) ; } inline int if4(void) { return 4; } int iget(void) { if (if1() == 9) if3(); return if2() + if4(); }', ['if1', 'if2', 'if3', 'if4']),
+    # __func__ of consecutive functions, the first of which is an inline definition that is not emitted
+    ('void rep(const char *); inline int chk1(int x) { rep(__func__); return x; } int first(void) { rep(__func__); return 1; } int second(void) { rep(__func__); return 2; } extern int chk1(int);', ['chk1', 'first', 'second']),
+]
+
+
+def _fixed(args):
+    exe, wd, i, text, names = args
+    d = dataref.Decl(i, text, names)
+    robj, rrej, rerr = dataref.ref_images('gcc', 'x86_64-sysv', 'void *vf_sink;\n', [d], wd, 'fx%dg' % i, extra=('-std=gnu11', '-fno-pic', '-fno-pie'), pedantic=False)
+    if robj is None or rrej:
+        return [{'k': -1, 'skip': 'fixed-unit-rejected-by-gcc'}]
+    m, rej, crash, live2 = dataref.cproc_images(exe, 'x86_64-sysv', 'void *vf_sink;\n', [d], wd, 'fx%d' % i)
+    if rej or m is None:
+        return [{'k': -1, 'violation': ('fixed:rejected', 'valid unit rejected: %s: %s' % (list(rej.values())[:1] or crash, text[:200]), text, None)}]
+    cdefs, crefs, dups = il_symbols(m)
+    rsyms = ref_symbols(robj)
+    out = []
+    for n in sorted(crefs):
+        if n.startswith('.L') and n not in cdefs:
+            out.append({'k': -1, 'violation': ('local-undefined', 'the module refers to the local symbol %s and does not define it: %s' % (n, text[:200]), text, None)})
+    for n in dups:
+        out.append({'k': -1, 'violation': ('duplicate-definition', 'symbol %s is defined twice in one module' % n, text, None)})
+    for name in names:
+        problems = judge(None, name, None, text, cdefs, crefs, rsyms, robj, None)
+        rec = {'k': -1, 'decided': True, 'shape': 'fixed:%d:%s' % (i, name), 'len': 1, 'kind': 'fixed', 'state': None}
+        if problems:
+            rec['violation'] = ('fixed:%d:%s' % (i, name), '%s  <- unit: %s' % ('; '.join(problems), text[:300]), text, None)
+        out.append(rec)
+    return out
+
+
 def undefined_history(seq):
     """a block-scope `extern int x[3]` whose size no file-scope declaration repeats: the file-scope type is not composed with
     an invisible declaration (6.2.7p4), the tentative array gets one element and the two types are incompatible (6.2.7p2: undefined)"""
@@ -312,7 +356,8 @@ def run(tier):
             items.append((k, seq, asm, render(seq, k, asm, asm_at=at)))
         work.append((exe, wd, 'u%d' % (i // B), prefix, items))
     seen_states = set()
-    for lst in common.pmap(_unit, work):
+    fixed_results = list(common.pmap(_fixed, [(exe, wd, i, t, n) for i, (t, n) in enumerate(FIXED_UNITS)]))
+    for lst in fixed_results + list(common.pmap(_unit, work)):
         for rec in lst:
             if 'harness' in rec:
                 raise common.HarnessError(rec['harness'])
